@@ -30,11 +30,23 @@ Check C52_empty_part_refuted :
     parse_str ua us (to_quoted_string (Partial [116] [])) = Bare [116; 46] /\
     parse_str ua us (to_quoted_string (Full [99] [] [116])) = Bare [99; 46; 46; 116] /\
     from_qualified_name ua us (quoted_flat_name (mkcol (Some (Bare [])) [120])) = mkcol None [46; 120].
+Check C52_ns_table_ref_roundtrip :
+  forall (r : tref) (ignore_case : bool),
+    ref_ok_ns r = true -> parse_str_normalized_ns (to_quoted_string r) ignore_case = r.
+Check C52_ns_column_roundtrip :
+  forall (c : column), col_ok_ns c = true -> from_qualified_name_ns (quoted_flat_name c) = c.
+Check C52_ns_empty_last_refuted :
+  parse_str_ns (to_quoted_string (Partial [116] [])) = Bare [116] /\
+  parse_str_ns (to_quoted_string (Full [99] [115] [])) = Partial [99] [115] /\
+  from_qualified_name_ns (quoted_flat_name (mkcol (Some (Bare [116])) [])) = mkcol None [116] /\
+  parse_str_ns (to_quoted_string (Full [] [] [116])) = Full [] [] [116].
 (* the definitions the statements rest on, so a change of meaning is visible in the audit log *)
 Print needs_quotes.
 Print quote_identifier.
 Print ref_ok.
 Print col_ok.
+Print ref_ok_ns.
+Print col_ok_ns.
 Print Assumptions C52_table_ref_roundtrip.
 Print Assumptions C52_column_roundtrip.
 Print Assumptions C52_quote_identifier_injective.
@@ -43,4 +55,7 @@ Print Assumptions C52_unquoted_is_safe.
 Print Assumptions C52_flat_name_plain.
 Print Assumptions C52_tokenize_fuel_irrelevant.
 Print Assumptions C52_empty_part_refuted.
+Print Assumptions C52_ns_table_ref_roundtrip.
+Print Assumptions C52_ns_column_roundtrip.
+Print Assumptions C52_ns_empty_last_refuted.
 Print Assumptions C52_nonvacuous.
